@@ -6,6 +6,7 @@ CONSTANTS
   CliIds = {1,2}
   SrvIds = {1,2}
   TrackObs = FALSE
+  TrackDeps = FALSE
   Dev = "none"
   SetupPlan <- Tamper_SetupPlan
   RegPlan <- Tamper_RegPlan
@@ -26,6 +27,7 @@ CONSTANTS
   MutPlan <- Tamper_MutPlan
   Splice = TRUE
   Reloads = FALSE
+  ExtFail = FALSE
   MaxFree = 100
 INVARIANT Agreement
 INVARIANT ClientAcceptsOnlyMatched
